@@ -1,5 +1,6 @@
 import GmQuic.Lemmas.CidRouter
 import GmQuic.Lemmas.CidRemote
+import GmQuic.Lemmas.CidSwitchRun
 /-!
 C14 — connection IDs are issued, used, retired and routed consistently.
 Only the property theorems; models in `GmQuic/Model/{Cid,Router}.lean`, lemmas in `GmQuic/Lemmas/Cid*.lean`.
@@ -131,11 +132,12 @@ theorem set_limit_cost (l : Local) (next n : Nat) (l' : Local) (fs : List NewCid
 
 /-! ## ids issued by the peer (`RRun`: any history of NEW_CONNECTION_ID frames — reordered, duplicated, with any
 sequence / retire-prior-to values — interleaved with paths applying for, borrowing, releasing and retiring ids;
-`fixed = false` is the pinned tree, `fixed = true` the tree with `fix-C14-remote-limit.diff`) -/
+`fixed : Remote.Tree` = which `recv_new_cid_frame`: `.pinned` the pinned tree, `.counted` with `fix-C14-remote-limit.diff`,
+`.exact` with `fix-C14-legal-issue.diff` on top (no pre-test on the frame's two fields)) -/
 
 /-- each path holds one id at a time: unless a borrowed id is still in use (`BorrowedCid` alive) a cell holds at most
 one id, a retired cell holds none — for every history, on both trees -/
-theorem cell_one_id_at_a_time (fixed : Bool) (limit : Nat) (ops : List ROp) :
+theorem cell_one_id_at_a_time (fixed : Remote.Tree) (limit : Nat) (ops : List ROp) :
     ∀ c ∈ (RRun.run fixed limit ops).s.cells, (c.inUse = false → c.alloc.length ≤ 1) ∧ (c.retired = true → c.alloc = []) :=
   (RRun.runInv_run fixed limit ops).inv.ok
 
@@ -155,20 +157,20 @@ theorem cell_borrows_newest (c : Cell) (x : Cid) (h : c.borrow.2 = .cid x) :
 
 /-- structural facts behind the retire-prior-to logic, for every history: the cells handed out are exactly the ids
 `ready_cells.offset .. cursor`, and both tables always share their offset (= the largest retire-prior-to honoured) -/
-theorem remote_tables_aligned (fixed : Bool) (limit : Nat) (ops : List ROp) :
+theorem remote_tables_aligned (fixed : Remote.Tree) (limit : Nat) (ops : List ROp) :
     let s := (RRun.run fixed limit ops).s
     s.roff + s.ready.length = s.cursor ∧ s.coff = s.roff :=
   ⟨(RRun.runInv_run fixed limit ops).inv.i1, (RRun.runInv_run fixed limit ops).inv.i2⟩
 
 /-- the statement: every step that accepts a NEW_CONNECTION_ID frame ends with at most `active_connection_id_limit`
 active peer ids -/
-def RemoteLimitEnforced (fixed : Bool) : Prop :=
+def RemoteLimitEnforced (fixed : Remote.Tree) : Prop :=
   ∀ (limit : Nat) (ops : List ROp) (o : ROp), 2 ≤ limit →
     ((RRun.run fixed limit ops).step fixed o).accepted = (RRun.run fixed limit ops).accepted + 1 →
     ((RRun.run fixed limit ops).step fixed o).s.activeCount ≤ limit
 
 /-- pinned tree: false — limit 2, initial id 0, then ids 1 and 2 with retire-prior-to 0: all three active -/
-theorem remote_limit_enforced_fails : ¬ RemoteLimitEnforced false := by
+theorem remote_limit_enforced_fails : ¬ RemoteLimitEnforced .pinned := by
   intro h
   have := h 2 [.apply, .initial (.ext 0) 0, .newcid 1 0 (.ext 1)] (.newcid 2 0 (.ext 2)) (by decide) (by decide)
   revert this
@@ -176,19 +178,21 @@ theorem remote_limit_enforced_fails : ¬ RemoteLimitEnforced false := by
 
 /-- pinned tree, what does hold: never more than `limit + 1` (in fact the whole table of peer ids never has more
 than `limit + 1` cells once a frame has been processed) -/
-theorem remote_limit_enforced_partial (fixed : Bool) (limit : Nat) (ops : List ROp) :
+theorem remote_limit_enforced_partial (fixed : Remote.Tree) (limit : Nat) (ops : List ROp) (hpre : fixed.pre = true) :
     (RRun.run fixed limit ops).s.activeCount ≤ limit + 1 ∧ (RRun.run fixed limit ops).s.cdq.length ≤ limit + 1 := by
   have h := RRun.runInv_run fixed limit ops
   have := Remote.activeCount_le_len (RRun.run fixed limit ops).s
-  have h1 := h.len
+  have h1 := h.len hpre
   rw [h.lim] at h1
   exact ⟨by omega, h1⟩
 
-/-- with `fix-C14-remote-limit.diff`: holds for every history -/
-theorem remote_limit_enforced : RemoteLimitEnforced true := by
+example : Remote.Tree.pre .pinned = true ∧ Remote.Tree.pre .counted = true := ⟨rfl, rfl⟩
+
+/-- with `fix-C14-remote-limit.diff` (with or without the pre-test): holds for every history -/
+theorem remote_limit_enforced (fixed : Remote.Tree) (hcount : fixed.count = true) : RemoteLimitEnforced fixed := by
   intro limit ops o _ hacc
-  have hinv := RRun.runInv_run true limit ops
-  generalize RRun.run true limit ops = r at hacc hinv
+  have hinv := RRun.runInv_run fixed limit ops
+  generalize RRun.run fixed limit ops = r at hacc hinv
   unfold RRun.step at hacc ⊢
   split at hacc
   · omega
@@ -197,13 +201,13 @@ theorem remote_limit_enforced : RemoteLimitEnforced true := by
   cases o with
   | newcid seq rpt cid =>
     simp only at hacc ⊢
-    have hs := Remote.recvNewCid_spec (fixed := true) (seq := seq) (rpt := rpt) (cid := cid) hinv.inv hinv.len
-    cases hres : r.s.recvNewCid true seq rpt cid with
+    have hs := Remote.recvNewCid_spec (fixed := fixed) (seq := seq) (rpt := rpt) (cid := cid) hinv.inv
+    cases hres : r.s.recvNewCid fixed seq rpt cid with
     | accepted s' =>
       simp only [hres]
       have := hs.1 s' hres
-      have h2 := this.2.2.2 rfl
-      rw [this.2.2.1, hinv.lim] at h2
+      have h2 := this.2.2 hcount
+      rw [this.2.1, hinv.lim] at h2
       exact h2
     | errLimit s' => simp only [hres] at hacc; omega
     | discarded => simp only [hres] at hacc; omega
@@ -218,8 +222,80 @@ theorem remote_limit_enforced : RemoteLimitEnforced true := by
     cases hres : r.s.release c <;> simp only [hres] at hacc <;> omega
   | retireCell c => simp only at hacc; omega
 
-example : ((RRun.run true 2 [.apply, .initial (.ext 0) 0, .newcid 1 0 (.ext 1)]).step true (.newcid 2 1 (.ext 2))).accepted = 2 := by
+example : Remote.Tree.count .counted = true ∧ Remote.Tree.count .exact = true := ⟨rfl, rfl⟩
+example : ((RRun.run .exact 2 [.apply, .initial (.ext 0) 0, .newcid 1 0 (.ext 1)]).step .exact (.newcid 2 1 (.ext 2))).accepted = 2 := by
   decide
+
+/-! ### a legal NEW_CONNECTION_ID frame is not rejected -/
+
+/-- the statement: a NEW_CONNECTION_ID frame is answered with CONNECTION_ID_LIMIT_ERROR only if processing it (insert,
+then retire-prior-to) would leave more than `active_connection_id_limit` active peer ids -/
+def LegalIssueAccepted (fixed : Remote.Tree) : Prop :=
+  ∀ (limit : Nat) (ops : List ROp) (seq rpt : Nat) (cid : Cid) (s' s2 : Remote),
+    (RRun.run fixed limit ops).s.recvNewCid fixed seq rpt cid = .errLimit s' →
+    ((RRun.run fixed limit ops).s.insertCid seq cid).1.retirePriorTo rpt = .ok s2 →
+    s2.activeCount > s2.limit
+
+/-- the tree with the pre-test `seq - retire_prior_to > limit` (pinned, and /repo with `fix-C14-remote-limit.diff`): false —
+limit 2, path A stays on id 0, a second path is retired twice (ids 1, 2), the peer replaces each (what gm-quic's own
+`LocalCids` sends: retire_prior_to stays 0): the frame (seq 3, retire_prior_to 0) leaves the ids {0, 3} active and is
+rejected because 3 − 0 > 2 -/
+theorem legal_issue_accepted_fails : ¬ LegalIssueAccepted .counted := by
+  intro h
+  have := h 2 [.apply, .initial (.ext 0) 0, .newcid 1 0 (.ext 1), .apply, .retireCell 1, .apply, .newcid 2 0 (.ext 2), .retireCell 2, .apply]
+    3 0 (.ext 3) _ _ rfl rfl
+  revert this
+  decide
+
+/-- what does hold on every tree: a frame that passes the pre-test is rejected only for too many active ids -/
+theorem legal_issue_accepted_partial (fixed : Remote.Tree) (s : Remote) (seq rpt : Nat) (cid : Cid) (s' s2 : Remote)
+    (hpre : seq - rpt ≤ s.limit)
+    (h : s.recvNewCid fixed seq rpt cid = .errLimit s') (h2 : (s.insertCid seq cid).1.retirePriorTo rpt = .ok s2) :
+    s2.activeCount > s2.limit := by
+  unfold Remote.recvNewCid at h
+  have hp : ¬ ((fixed.pre && decide (seq - rpt > s.limit)) = true) := by simp; intro _; omega
+  split at h
+  · rename_i hc; exact absurd hc hp
+  split at h
+  · cases h
+  generalize hq : s.insertCid seq cid = q at h h2
+  obtain ⟨s1, n⟩ := q
+  simp only at h h2
+  rw [h2] at h
+  simp only at h
+  split at h
+  · rename_i hc
+    simp only [Bool.and_eq_true, decide_eq_true_eq] at hc
+    exact hc.2
+  · cases h
+
+example : ∃ s' s2, (RRun.run .counted 2 [.apply, .initial (.ext 0) 0, .newcid 1 0 (.ext 1)]).s.recvNewCid .counted 2 0 (.ext 2) = .errLimit s' ∧
+    ((RRun.run .counted 2 [.apply, .initial (.ext 0) 0, .newcid 1 0 (.ext 1)]).s.insertCid 2 (.ext 2)).1.retirePriorTo 0 = .ok s2 :=
+  ⟨_, _, rfl, rfl⟩
+
+/-- with `fix-C14-legal-issue.diff` (the count alone decides): holds for every history -/
+theorem legal_issue_accepted : LegalIssueAccepted .exact := by
+  intro limit ops seq rpt cid s' s2 h h2
+  generalize (RRun.run .exact limit ops).s = s at h h2
+  unfold Remote.recvNewCid at h
+  split at h
+  · rename_i hc; simp [Remote.Tree.pre] at hc
+  split at h
+  · cases h
+  generalize hq : s.insertCid seq cid = q at h h2
+  obtain ⟨s1, n⟩ := q
+  simp only at h h2
+  rw [h2] at h
+  simp only at h
+  split at h
+  · rename_i hc
+    simp only [Bool.and_eq_true, decide_eq_true_eq] at hc
+    exact hc.2
+  · cases h
+
+/-- … and the witness history of `legal_issue_accepted_fails` is accepted there -/
+example : ∃ s', (RRun.run .exact 2 [.apply, .initial (.ext 0) 0, .newcid 1 0 (.ext 1), .apply, .retireCell 1, .apply, .newcid 2 0 (.ext 2),
+    .retireCell 2, .apply]).s.recvNewCid .exact 3 0 (.ext 3) = .accepted s' := ⟨_, rfl⟩
 
 /-- cells by which one NEW_CONNECTION_ID frame grows the table: `seq - offset - len + 1`, bounded only by the
 sequence number the peer chooses (with `retire_prior_to = seq - limit` the limit test passes) — DESIGN §7 item 8, C04 -/
@@ -229,9 +305,203 @@ theorem new_cid_table_growth (s : Remote) (seq : Nat) (h : s.coff + s.cdq.length
   have : ¬ (seq - s.coff < s.cdq.length) := by omega
   simp [this]
 
--- OPEN: retire_prior_to_switches_and_retires_once (∀ histories: for every sequence number q,
---   frames.count q + (number of cells holding q) = if q < cursor then 1 else 0) is not proved yet; it is
---   checked on every run by the exact correspondence of the RETIRE_CONNECTION_ID frame stream and by the
---   monitors `retire_frame_duplicated`, `retire_of_unissued_seq`, `retired_id_used`, `abandoned_id_used`.
+/-! ## retire-prior-to: switching, and exactly one RETIRE_CONNECTION_ID per abandoned id
+
+Ghost logs over a history `ops` (frames in any order, duplicated, any seq / retire_prior_to values, interleaved with
+apply / borrow / release (= drop of `BorrowedCid` ⇒ `CidCell::renew`) / retire of any number of cells):
+* emitted RETIRE_CONNECTION_ID frames: `(RRun.run … ops).s.frames` — every `send_frame` of `RemoteCids` and of every
+  `CidCell`, in order; `frames.count q` = number of frames carrying `q`;
+* assigned sequence numbers: `Assigned … ops q c` — at some point of the history cell `c`'s `allocated_cids` contained
+  `q` (`CidCell::assign` pushes the new id to the front, so every assignment shows in the state after its step).
+`s.roff` (= `s.coff`, `remote_tables_aligned`) is the current retire-prior-to: `retire_prior_to_is_max`.
+`s.cursor` is the next sequence number never handed out; `s.cidAt s.cursor` = "a replacement id is available"
+(gm-quic hands ids out strictly in sequence order). -/
+
+def Assigned (fixed : Remote.Tree) (limit : Nat) (ops : List ROp) (q c : Nat) : Prop :=
+  ∃ n, q ∈ ((RRun.run fixed limit (ops.take n)).s.cell c).seqs
+
+/-- the accounting, for every history and every sequence number `q`: the number of RETIRE_CONNECTION_ID frames that
+carried `q` plus the number of cells holding `q` is 1 below `cursor` (assigned to a path, or jumped over by
+retire_prior_to) and 0 from `cursor` on — no id is retired twice, none is retired while a path holds it, none is held
+by two paths, and an id no path holds any more has been retired -/
+theorem retire_accounting (fixed : Remote.Tree) (limit : Nat) (ops : List ROp) (q : Nat) :
+    let s := (RRun.run fixed limit ops).s
+    s.frames.count q + s.held.count q = if q < s.cursor then 1 else 0 :=
+  (RRun.runGood_run fixed limit ops).good.acct q
+
+/-- never two RETIRE_CONNECTION_ID frames for one sequence number -/
+theorem retire_frame_at_most_once (fixed : Remote.Tree) (limit : Nat) (ops : List ROp) (q : Nat) :
+    (RRun.run fixed limit ops).s.frames.count q ≤ 1 := by
+  have := retire_accounting fixed limit ops q
+  simp only at this
+  split at this <;> omega
+
+/-- the current retire-prior-to is the largest one of the accepted frames: an accepted NEW_CONNECTION_ID frame
+`(seq, rpt)` leaves the offset of both tables at `max offset rpt`; nothing assigned lies beyond `cursor ≥ offset` -/
+theorem retire_prior_to_is_max (fixed : Remote.Tree) (limit : Nat) (ops : List ROp) (seq rpt : Nat) (cid : Cid) (s' : Remote)
+    (h : (RRun.run fixed limit ops).s.recvNewCid fixed seq rpt cid = .accepted s') :
+    s'.roff = max (RRun.run fixed limit ops).s.roff rpt ∧ s'.coff = s'.roff ∧ s'.roff ≤ s'.cursor := by
+  have hg := (RRun.runGood_run fixed limit ops).good
+  have := (Remote.recvNewCid_good (fixed := fixed) (seq := seq) (rpt := rpt) (cid := cid) hg).1 s' h
+  have h1 := this.1.rinv.i1
+  exact ⟨this.2.2.2, this.1.rinv.i2, by omega⟩
+
+example : ∃ s', (RRun.run .exact 2 [.apply, .initial (.ext 0) 0]).s.recvNewCid .exact 1 1 (.ext 1) = .accepted s' ∧ s'.roff = 1 :=
+  ⟨_, rfl, by decide⟩
+
+/-- **one retirement per abandoned id** — for every history and every sequence number `q` that was ever assigned to a
+cell `c`: at the end either `c` still holds `q` and no RETIRE_CONNECTION_ID `q` exists, or no cell holds `q` and
+EXACTLY ONE RETIRE_CONNECTION_ID `q` was sent; if `c` was retired it is the latter; and once the borrow is released
+(`is_using = false`) it is the latter for every assigned number except the single id the cell keeps. -/
+theorem retire_prior_to_switches_and_retires_once (fixed : Remote.Tree) (limit : Nat) (ops : List ROp) (q c : Nat)
+    (ha : Assigned fixed limit ops q c) :
+    let s := (RRun.run fixed limit ops).s
+    ((q ∈ (s.cell c).seqs ∧ s.frames.count q = 0 ∧ s.held.count q = 1) ∨
+      (q ∉ (s.cell c).seqs ∧ s.frames.count q = 1 ∧ s.held.count q = 0)) ∧
+    ((s.cell c).retired = true → s.frames.count q = 1) ∧
+    ((s.cell c).inUse = false → s.frames.count q = 1 ∨ ∃ x, (s.cell c).alloc = [(q, x)]) := by
+  obtain ⟨n, hn⟩ := ha
+  have hl := RRun.leaves_take fixed limit ops n
+  have hg := (RRun.runGood_run fixed limit ops).good
+  generalize (RRun.run fixed limit ops).s = s at hl hg
+  generalize (RRun.run fixed limit (ops.take n)).s = s0 at hl hn
+  simp only
+  have hacct := hg.acct q
+  unfold Remote.acct at hacct
+  have hle : s.frames.count q + s.held.count q ≤ 1 := by split at hacct <;> omega
+  -- a number a cell holds is counted in `held`
+  have hheld : q ∈ (s.cell c).seqs → 1 ≤ s.held.count q := by
+    intro hm
+    rcases Nat.lt_or_ge c s.cells.length with hc | hc
+    · rw [Remote.cell_lt s c hc] at hm
+      apply List.count_pos_iff.2
+      unfold Remote.held
+      exact List.mem_flatMap.2 ⟨_, List.getElem_mem hc, hm⟩
+    · rw [Remote.cell_ge s c hc] at hm; simp [Cell.seqs, Cell.fresh] at hm
+  have hok := Remote.cell_ok_of_all s hg.rinv.ok c
+  have key : (q ∈ (s.cell c).seqs ∧ s.frames.count q = 0 ∧ s.held.count q = 1) ∨
+      (q ∉ (s.cell c).seqs ∧ s.frames.count q = 1 ∧ s.held.count q = 0) := by
+    rcases hl.mem c q hn with h1 | h1
+    · have := hheld h1; exact Or.inl ⟨h1, by omega, by omega⟩
+    · have h2 : 1 ≤ s.frames.count q := List.count_pos_iff.2 h1
+      refine Or.inr ⟨fun hm => ?_, by omega, by omega⟩
+      have := hheld hm; omega
+  refine ⟨key, fun hr => ?_, fun hu => ?_⟩
+  · rcases key with ⟨h1, _⟩ | ⟨_, h2, _⟩
+    · have := hok.2 hr; simp [Cell.seqs, this] at h1
+    · exact h2
+  · rcases key with ⟨h1, _⟩ | ⟨_, h2, _⟩
+    · right
+      have hlen := hok.1 hu
+      unfold Cell.seqs at h1
+      match hal : (s.cell c).alloc, hlen, h1 with
+      | [(a, x)], _, h1 => simp at h1; subst h1; exact ⟨x, rfl⟩
+      | [], _, h1 => simp at h1
+      | _ :: _ :: _, hlen, _ => simp at hlen
+    · exact Or.inl h2
+
+/-- non-vacuity + the shape of the seeded c14-2 history: two frames bump retire-prior-to during one borrow; after the
+release both abandoned ids 0 and 1 are retired once and the path is on id 2 -/
+example : Assigned .exact 2 [.apply, .initial (.ext 0) 0, .borrow 0, .newcid 1 1 (.ext 1), .newcid 2 2 (.ext 2), .release 0] 1 0 :=
+  ⟨4, by decide⟩
+example : (RRun.run .exact 2 [.apply, .initial (.ext 0) 0, .borrow 0, .newcid 1 1 (.ext 1), .newcid 2 2 (.ext 2), .release 0]).s.frames = [0, 1] := by
+  decide
+
+/-- **switching** — in every reachable state of a connection that is not being closed: if a replacement id is
+available (the next unused sequence number has been received) then no path waits, and the id every live path is
+using / will keep after its release (the front of `allocated_cids`, what `borrow_cid` returns) is ≥ the current
+retire-prior-to -/
+theorem abandoned_id_replaced_when_available (fixed : Remote.Tree) (limit : Nat) (ops : List ROp) (c : Nat) (x : Cid)
+    (hcl : (RRun.run fixed limit ops).closed = false)
+    (hav : (RRun.run fixed limit ops).s.cidAt (RRun.run fixed limit ops).s.cursor = some x)
+    (hc : c < (RRun.run fixed limit ops).s.cells.length)
+    (hlive : ((RRun.run fixed limit ops).s.cell c).retired = false) :
+    ∃ a y rest, ((RRun.run fixed limit ops).s.cell c).alloc = (a, y) :: rest ∧ (RRun.run fixed limit ops).s.roff ≤ a := by
+  have hr := RRun.runGood_run fixed limit ops
+  generalize RRun.run fixed limit ops = r at *
+  have hp : r.s.pending = [] := by
+    rcases hr.settled with h | h | h
+    · rw [hcl] at h; cases h
+    · exact h
+    · rw [hav] at h; cases h
+  rcases hr.good.cover c hc with h | h | h
+  · rw [hp] at h; cases h
+  · obtain ⟨j, hj, hjc⟩ := List.getElem_of_mem h
+    rcases hr.good.heads j c (by rw [List.getElem?_eq_getElem hj, hjc]) with h1 | ⟨a, y, rest, h1, h2⟩
+    · rw [hlive] at h1; cases h1
+    · exact ⟨a, y, rest, h1, by omega⟩
+  · rw [hlive] at h; cases h
+
+example : (RRun.run .exact 3 [.apply, .initial (.ext 0) 0, .newcid 1 0 (.ext 1)]).s.cidAt
+    (RRun.run .exact 3 [.apply, .initial (.ext 0) 0, .newcid 1 0 (.ext 1)]).s.cursor = some (.ext 1) := by decide
+
+/-- … and an abandoned id (below the current retire-prior-to) is held only by a path that has it borrowed right now,
+or by a path queued for reassignment while no replacement is available -/
+theorem abandoned_id_held_only_while_waiting (fixed : Remote.Tree) (limit : Nat) (ops : List ROp) (q c : Nat)
+    (hcl : (RRun.run fixed limit ops).closed = false)
+    (hq : q ∈ ((RRun.run fixed limit ops).s.cell c).seqs) (hlt : q < (RRun.run fixed limit ops).s.roff) :
+    ((RRun.run fixed limit ops).s.cell c).inUse = true ∨
+    (c ∈ (RRun.run fixed limit ops).s.pending ∧
+      (RRun.run fixed limit ops).s.cidAt (RRun.run fixed limit ops).s.cursor = none) := by
+  have hr := RRun.runGood_run fixed limit ops
+  generalize RRun.run fixed limit ops = r at *
+  cases hu : (r.s.cell c).inUse with
+  | true => exact Or.inl rfl
+  | false =>
+    right
+    have hc : c < r.s.cells.length := by
+      rcases Nat.lt_or_ge c r.s.cells.length with h | h
+      · exact h
+      · rw [Remote.cell_ge _ c h] at hq; simp [Cell.seqs, Cell.fresh] at hq
+    have hok := Remote.cell_ok_of_all r.s hr.good.rinv.ok c
+    have hlive : (r.s.cell c).retired = false := by
+      cases hret : (r.s.cell c).retired with
+      | false => rfl
+      | true => have := hok.2 hret; simp [Cell.seqs, this] at hq
+    have hlen := hok.1 hu
+    have hpend : c ∈ r.s.pending := by
+      rcases hr.good.cover c hc with h | h | h
+      · exact h
+      · obtain ⟨j, hj, hjc⟩ := List.getElem_of_mem h
+        rcases hr.good.heads j c (by rw [List.getElem?_eq_getElem hj, hjc]) with h1 | ⟨a, y, rest, h1, h2⟩
+        · rw [hlive] at h1; cases h1
+        · rw [h1] at hlen
+          cases rest with
+          | nil => simp [Cell.seqs, h1] at hq; omega
+          | cons _ _ => simp at hlen
+      · rw [hlive] at h; cases h
+    refine ⟨hpend, ?_⟩
+    rcases hr.settled with h | h | h
+    · rw [hcl] at h; cases h
+    · rw [h] at hpend; cases hpend
+    · exact h
+
+/-- non-vacuity: two paths on ids 0 and 1, then a frame (seq 2, retire_prior_to 2): path 0 switches to id 2 (RETIRE 0), path 1
+keeps the abandoned id 1 — it is queued and no further id has been received -/
+example :
+    let r := RRun.run .exact 2 [.apply, .initial (.ext 0) 0, .newcid 1 0 (.ext 1), .apply, .newcid 2 2 (.ext 2)]
+    r.closed = false ∧ 1 ∈ (r.s.cell 1).seqs ∧ 1 < r.s.roff ∧ r.s.frames = [0] := by decide
+
+/-- the clause in one statement: a number that was assigned to a path and is now below retire-prior-to has EXACTLY ONE
+RETIRE_CONNECTION_ID frame once the path's borrow is released — unless the path still holds it as its only id, is
+queued for reassignment, and no replacement id has been received -/
+theorem abandoned_id_retired_once_after_release (fixed : Remote.Tree) (limit : Nat) (ops : List ROp) (q c : Nat)
+    (ha : Assigned fixed limit ops q c) (hcl : (RRun.run fixed limit ops).closed = false)
+    (hu : ((RRun.run fixed limit ops).s.cell c).inUse = false) (hlt : q < (RRun.run fixed limit ops).s.roff) :
+    (RRun.run fixed limit ops).s.frames.count q = 1 ∨
+    ((∃ x, ((RRun.run fixed limit ops).s.cell c).alloc = [(q, x)]) ∧ c ∈ (RRun.run fixed limit ops).s.pending ∧
+      (RRun.run fixed limit ops).s.cidAt (RRun.run fixed limit ops).s.cursor = none) := by
+  rcases (retire_prior_to_switches_and_retires_once fixed limit ops q c ha).2.2 hu with h | ⟨x, hx⟩
+  · exact Or.inl h
+  · right
+    have hq : q ∈ ((RRun.run fixed limit ops).s.cell c).seqs := by simp [Cell.seqs, hx]
+    rcases abandoned_id_held_only_while_waiting fixed limit ops q c hcl hq hlt with h1 | h1
+    · rw [hu] at h1; cases h1
+    · exact ⟨⟨x, hx⟩, h1⟩
+
+/-- non-vacuity: the c14-2 history — numbers 0 and 1 were assigned to cell 0, are below retire-prior-to 2 after the release -/
+example :
+    let r := RRun.run .exact 2 [.apply, .initial (.ext 0) 0, .borrow 0, .newcid 1 1 (.ext 1), .newcid 2 2 (.ext 2), .release 0]
+    r.closed = false ∧ (r.s.cell 0).inUse = false ∧ 1 < r.s.roff ∧ r.s.frames.count 1 = 1 ∧ r.s.frames.count 0 = 1 := by decide
 
 end GmQuic.Cid
